@@ -9,19 +9,19 @@ ROOT = os.path.dirname(os.path.dirname(os.path.abspath(__file__)))
 
 TECH = {
     "C01": ("runtime monitor: independent RDKit element/charge balance oracle on every solved row returned by the real Balancer over corpus, redox-template, ionic/heavy-element, deletion and marker workloads", "4 C01"),
-    "C02": ("runtime monitor: canonical-fragment multiset containment oracle (input side within output side; input_reaction == de-mapped input) on rows of the real pipeline, incl. marker-collision inputs", "4 C02"),
+    "C02": ("runtime monitor: canonical-fragment multiset containment oracle (input side within output side; input_reaction == de-mapped input) on rows of the real pipeline, incl. marker-collision inputs and result rows that are edited and fed back", "4 C02 / 9"),
     "C03": ("runtime monitor on returned rows + stage snapshots: declined rows equal their input and carry an issue, solved rows name a method; edit signatures show which in-place editors ran before the revert", "4 C03"),
     "C04": ("runtime monitor: oracle-balanced inputs (shipped curated reactions, reversals, multiples, unions, ionic/heavy constructions) must come back input-balanced and unchanged; converse on unbalanced inputs", "4 C04"),
     "C05": ("runtime monitor at the client boundary: row count/order/identity oracle over enumerated sequences of valid and malformed rows x batch sizes x input sources, and over the CLI's output files", "4 C05"),
-    "C06": ("run-vs-run metamorphic monitor: same reactions alone / co-batched / permuted / partitioned / different n_jobs must give identical rows; stats additivity; wall-clock taint excluded", "4 C06"),
-    "C07": ("runtime contracts on the real decomposer/comparator/carbon check against the independent composition oracle; periodic-table sweep and exhaustive small composition-vector pairs", "4 C07"),
+    "C06": ("run-vs-run metamorphic monitor: same reactions alone / co-batched / permuted / partitioned / different n_jobs must give identical rows; stats additivity; processing-history blocks (warm process in dataset order vs fresh interpreter in reverse order); wall-clock taint excluded", "4 C06 / 9"),
+    "C07": ("runtime contracts on the real decomposer/comparator/carbon check (also the real decompose->compare chain on reactions and the count cache across element types) against the independent composition oracle; periodic-table sweep, dot-spanning ring closures, exhaustive small composition-vector pairs", "4 C07 / 9"),
     "C08": ("runtime postconditions on the real rule matcher / imputer / constraint: returned completions are re-summed with oracle compositions; exhaustive small imbalance vectors", "4 C08"),
     "C09": ("runtime postconditions on the real merge(): atom conservation, no open boundary, cut-merge round trip and reference expansion over (molecule, acyclic single bond) pairs", "4 C09"),
     "C10": ("runtime monitor at exit of the real MCSSearch.find and get_largest_condition: attribution, containment (RDKit substructure) and maximality against a reference selection; exhaustive small result tables", "4 C10"),
     "C11": ("fault injection at the real failure sites of the MCS stage (delay beyond budget, raise, cancelled FindMCS, line-level delays in the zombie thread) with run-vs-fault-free comparison", "4 C11"),
     "C12": ("history and crash-point enumeration over a shared cache directory: cached run vs uncached run of the real Balancer; every truncated on-disk state and real kills at the k-th write", "4 C12"),
     "C13": ("run-vs-run monitor across thresholds (incl. observed confidences and their float neighbours) on rows of the real Balancer", "4 C13"),
-    "C14": ("metamorphic monitor: equivalent spellings / molecule orders of one reaction through the real Balancer must give the same verdict and added-fragment multisets", "4 C14"),
+    "C14": ("metamorphic monitor: equivalent spellings / molecule orders of one reaction through the real Balancer must give the same verdict and added-fragment multisets (bases incl. ambiguous-completion imbalances, H2 on the reactant side, spectator copies; also re-spellings of reactions whose first spelling was declined)", "4 C14 / 9"),
     "C15": ("runtime postcondition on the real remove_atom_mapping against the RDKit-API de-mapping oracle over a periodic-table bracket-atom generator and mapped corpus", "4 C15"),
     "C16": ("runtime monitor: renumbering invariance of is_functional_group and agreement of pattern_match with an independent backtracking sub-graph matcher", "4 C16"),
     "C17": ("runtime monitor: idempotence, permutation/spelling invariance of normalize_smiles and symmetry/range of wc_similarity, incl. isomers with colliding sort keys", "4 C17"),
